@@ -11,12 +11,14 @@ import (
 	"bytes"
 	"encoding/json"
 	"fmt"
+	"io"
 	"os"
 	"path/filepath"
 	"reflect"
 	"runtime"
 	"runtime/debug"
 	"strings"
+	"testing/iotest"
 	"time"
 	"unicode/utf8"
 
@@ -277,6 +279,9 @@ func decFailure(b []byte) string {
 	if f := decReuseFailure(b, o); f != "" {
 		return f
 	}
+	if f := decFragmentedFailure(b, o); f != "" {
+		return f
+	}
 	p := runDecPlain(b)
 	if (p.Panicked != "") != (o.Panicked != "") || (p.Err == nil) != (o.Err == nil) ||
 		(o.Err == nil && (!sameMsg(p.Msg, o.Msg) || p.Rest != o.Rest)) {
@@ -339,6 +344,75 @@ func decReuseFailure(b []byte, fresh decOut) (res string) {
 	return ""
 }
 
+// chunkReader returns 1..k bytes per Read, the sizes drawn from a generator seeded by the
+// input (deterministic per input, so that a replay sees the same fragmentation).
+type chunkReader struct {
+	r io.Reader
+	s uint64
+	k int
+}
+
+func (c *chunkReader) Read(p []byte) (int, error) {
+	if len(p) == 0 {
+		return 0, nil
+	}
+	c.s = c.s*6364136223846793005 + 1442695040888963407
+	n := 1 + int((c.s>>33)%uint64(c.k))
+	if n > len(p) {
+		n = len(p)
+	}
+	return c.r.Read(p[:n])
+}
+
+// decFragmentedFailure: a reader may return fewer bytes than asked for at any time (a
+// network stream, an HTTP body).  Decoding through fragmenting readers must give exactly
+// what decoding from a bytes.Reader gives.
+func decFragmentedFailure(b []byte, whole decOut) string {
+	var seed uint64 = 1469598103934665603
+	for _, x := range b {
+		seed = (seed ^ uint64(x)) * 1099511628211
+	}
+	for _, fr := range []struct {
+		name string
+		wrap func(io.Reader) io.Reader
+	}{
+		{"one-byte-reader", iotest.OneByteReader},
+		{"half-reader", iotest.HalfReader},
+		{"random-chunks-1..3", func(r io.Reader) io.Reader { return &chunkReader{r: r, s: seed, k: 3} }},
+		{"random-chunks-1..17", func(r io.Reader) io.Reader { return &chunkReader{r: r, s: seed, k: 17} }},
+		{"data-err-reader", iotest.DataErrReader},
+	} {
+		var m message.Message
+		var err error
+		rd := bytes.NewReader(b)
+		panicked := false
+		func() {
+			defer func() {
+				if recover() != nil {
+					panicked = true
+				}
+			}()
+			err = m.UnmarshalCBOR(fr.wrap(rd))
+		}()
+		switch {
+		case panicked != (whole.Panicked != ""):
+			return "decode-through-" + fr.name + "-differs:panic"
+		case panicked:
+		case (err == nil) != (whole.Err == nil):
+			return "decode-through-" + fr.name + "-differs:error"
+		case err != nil:
+			if errClass(err) != errClass(whole.Err) {
+				return "decode-through-" + fr.name + "-differs:error-class"
+			}
+		case !reflect.DeepEqual(m, whole.Msg):
+			return "decode-through-" + fr.name + "-differs:message"
+		case fr.name != "data-err-reader" && rd.Len() != whole.Rest:
+			return "decode-through-" + fr.name + "-differs:bytes-consumed"
+		}
+	}
+	return ""
+}
+
 func (c *ctx) decCase(kind string, b []byte, sample bool) {
 	c.Eval()
 	c.Count("dec:" + kind)
@@ -376,7 +450,7 @@ func (c *ctx) decCase(kind string, b []byte, sample bool) {
 		if c.fails[f] <= 2 {
 			s := shrinkBytes(b, decFailure)
 			sig := fmt.Sprintf("%s:%s", f, hx(s))
-			if strings.HasPrefix(f, "decode-into-used-message") {
+			if strings.HasPrefix(f, "decode-into-used-message") || strings.HasPrefix(f, "decode-through-") {
 				// the input is a valid message; name its shape, not its (random) bytes
 				if d := runDec(s); d.Err == nil && d.Panicked == "" {
 					sig = fmt.Sprintf("%s:%s", f, msgSummary(d.Msg))
@@ -384,7 +458,7 @@ func (c *ctx) decCase(kind string, b []byte, sample bool) {
 					sig = fmt.Sprintf("%s:invalid-input-of-%d-bytes", f, len(s))
 				}
 			}
-			c.Fail(sig, fmt.Sprintf("%s on %d input bytes %s (decoded after a message with all fields into the same Message value; a fresh Message gives a different result)", f, len(s), hx(s)), replay{Kind: "decode", Input: hx(s)})
+			c.Fail(sig, fmt.Sprintf("%s on %d input bytes %s (the same bytes decoded from a bytes.Reader into a fresh Message give a different result)", f, len(s), hx(s)), replay{Kind: "decode", Input: hx(s)})
 		}
 	}
 }
@@ -655,6 +729,7 @@ func main() {
 	// ---- senders ----
 	c.httpCases()
 	c.p2pCases()
+	c.cornerCases()
 }
 
 func (c *ctx) runReplay() {
@@ -691,6 +766,8 @@ func (c *ctx) runReplay() {
 	case "burst":
 		c.httpCases()
 		c.p2pCases()
+	case "corners":
+		c.cornerCases()
 	default:
 		panic("unknown replay kind " + rp.Kind)
 	}
